@@ -306,7 +306,7 @@ class MultiTypeMap(dict):
                 finished = True
         print("Resolution:", message)
 
-    def wrap_dependent(self, tup, handlers, group, next_call):
+    def wrap_dependent(self, tup, handlers, group, next_call, next_group=()):
         handlers = list(handlers)
         htup = [(h, self.type_tuples[h]) for h in handlers]
         slf = (
@@ -321,7 +321,12 @@ class MultiTypeMap(dict):
             slf,
             name=f"{self.name}.specialized_dispatch_{next(self.dispatch_id)}",
             err=self.key_error(tup, group),
-            nerr=self.key_error(tup, ()),
+            # Falling through into an ambiguous group is an ambiguity, not a
+            # missing method
+            nerr=self.key_error(
+                tup,
+                next_group if (next_call and next_call[0] is None) else (),
+            ),
         )
 
     def resolve(self, obj_t_tup):
@@ -330,12 +335,17 @@ class MultiTypeMap(dict):
             raise self.key_error(obj_t_tup, ())
 
         funcs = []
+        next_group = ()
         for group in reversed(results):
             handlers = [c.handler for c in group]
             dependent = any(self.dependent[c.handler] for c in group)
             if dependent:
                 nxt = self.wrap_dependent(
-                    obj_t_tup, handlers, group, funcs[-1] if funcs else None
+                    obj_t_tup,
+                    handlers,
+                    group,
+                    funcs[-1] if funcs else None,
+                    next_group,
                 )
             elif len(group) != 1:
                 nxt = None
@@ -343,6 +353,7 @@ class MultiTypeMap(dict):
                 nxt = handlers[0]
             codes = [h.__code__ for h in handlers if hasattr(h, "__code__")]
             funcs.append((nxt, codes))
+            next_group = group
 
         funcs.reverse()
 
